@@ -324,3 +324,18 @@ Theorem C08_rr_continuation_areas_disjoint_after_every_history : forall (v : RRE
   mrr_ce_ext (r_root (rr_run (rr_init v) ops)) (mrr_layout (rr_run (rr_init v) ops)) i1 < l_er (mrr_layout (rr_run (rr_init v) ops)).
 Proof. exact MasterRRRun.master_rr_areas_disjoint_run. Qed.
 End MasterRRStatements.
+
+(* ---- continuation areas of a PARSED image are tracked exactly: Model/ParseRR.v.  For EVERY edit history the continuation
+   block table that open rebuilds (track_rr_ce_entry) holds entry (offset, length) at extent e iff some block of the writer
+   holds it and was placed at e; one block per extent -- so new entries never land on a parsed one *)
+From PV.Model Require ParseRR ParseRRSpec.
+From PV.Proofs Require ParseRRTable ParseRRBlocks.
+Section ParseRRBlocksStatement.
+Import PV.Model.AccountRR PV.Model.MasterRR PV.Model.ParseRR PV.Model.ParseRRSpec.
+Theorem C08_open_tracks_exactly_the_written_continuation_entries : forall (v : RREntries.rrv) (ops : list rop) (dt : list Z),
+  let s := rr_run (rr_init v) ops in
+  (forall e o l : Z, ParseRRTable.tbl_has (g_blocks (graph_of dt s)) e o l <->
+     (exists (i : nat) (es : CeAlloc.block), In (i, es) (r_blocks s) /\ In (o, l) es /\ mrr_ce_ext (r_root s) (mrr_layout s) i = e)) /\
+  NoDup (map fst (g_blocks (graph_of dt s))).
+Proof. exact ParseRRBlocks.parse_rr_blocks_run. Qed.
+End ParseRRBlocksStatement.
